@@ -213,20 +213,7 @@ def grid():
 
 def specials():
     out = []
-    # --- cache-key collisions (Loader.get_pipeline key f'{parent}+{name}') -----------------
-    b = Builder()
-    b.add('x/c0.yaml', [{'name': 'q+r'}, {'name': '$T/x+q/c1'}])
-    b.add('x/q+r.yaml', [])
-    b.add('x+q/c1.yaml', [{'name': 'r'}])
-    b.add('x+q/r.yaml', [])
-    out.append(b.case({'name': '$T/x/c0', 'loader': None, 'py_dir': None},
-                      tags=['special:collision-parent-dir']))
-    b = Builder()
-    b.add('cwd/c0.yaml', [{'name': 'q+r', 'resolve': False}, {'name': 'r', 'parent': 'q'}])
-    b.add('cwd/q+r.yaml', [])
-    b.add('cwd/q/r.yaml', [])
-    out.append(b.case({'name': 'c0', 'loader': None, 'py_dir': None},
-                      tags=['special:collision-no-parent']))
+    # (the two cache-key collision layouts of DESIGN F4 live in corpus/C19/ and run first)
     # same shapes without the colliding first request: the right file runs
     b = Builder()
     b.add('x/c0.yaml', [{'name': '$T/x+q/c1'}])
